@@ -150,6 +150,10 @@ impl RefCollector {
     fn path(&mut self, kind: &str, p: &syn::Path) {
         use quote::ToTokens;
         if p.leading_colon.is_some() {
+            // `::krate::..`: resolved from the extern prelude - fine for `::core`, but `::std` / `::alloc` do not exist
+            // in every crate (no_std): recorded with the marker kind "abs"
+            let first = p.segments.first().unwrap().ident.to_string();
+            self.refs.insert(("abs".to_string(), first, p.to_token_stream().to_string()));
             return;
         }
         let first = p.segments.first().unwrap().ident.to_string();
@@ -369,12 +373,30 @@ fn do_split_args(case: &Value) -> Value {
 }
 
 // ---------------------------------------------------------------------------------------------
+// parse-attr : the whole `"literal", args...` attribute through FmtAttribute::parse (cfg(derive_more_verif) hook of
+// impl/src/fmt/mod.rs): per argument its alias, whether it is a plain identifier, its tokens
+// ---------------------------------------------------------------------------------------------
+
+fn do_parse_attr(case: &Value) -> Value {
+    let toks = case["tokens"].as_str().unwrap_or("").to_string();
+    let ts: proc_macro2::TokenStream = match toks.parse() {
+        Ok(t) => t,
+        Err(e) => return json!({"outcome": "lex_error", "msg": e.to_string()}),
+    };
+    guarded(panic::AssertUnwindSafe(move || match fmt::verif_parse_fmt_attribute(ts) {
+        Ok(args) => json!({"outcome": "ok", "args": args.iter().map(|(a, i, t)| json!({"alias": a, "ident": i, "tokens": t})).collect::<Vec<_>>()}),
+        Err(e) => json!({"outcome": "err", "msg": e.to_string()}),
+    }))
+}
+
+// ---------------------------------------------------------------------------------------------
 
 fn run_case(cmd: &str, case: &Value) -> Value {
     match cmd {
         "expand" => do_expand(case),
         "parse-fmt" => do_parse_fmt(case),
         "split-args" => do_split_args(case),
+        "parse-attr" => do_parse_attr(case),
         _ => json!({"outcome": "bad_command"}),
     }
 }
